@@ -162,8 +162,9 @@ theorem remote_span_forwarded (ev : Event) (c : Ctx) (hs : Span ev c) (hn : Norm
 
 /-- **forward_preserves** — whatever reaches the peer transmission (a forwarded span, or the
 stress probe) is addressed to the trace's owner, which is not this node, and carries the
-received API key, dataset, environment, sample rate, timestamp, client fields and trace id;
-outside the stress-keep branch nothing but the host differs from the received event. -/
+received API key, dataset, environment, sample rate, timestamp, client fields and trace id.
+A forwarded span differs from the received event in the host only; the stress probe is the
+received event with the host, `meta.stressed` and the probe flag set — and nothing else. -/
 theorem forward_preserves (ev : Event) (c : Ctx) (call : Call)
     (hin : call ∈ (process ev c).calls) (hs : call.sink = .peer) :
     call.obj.host = c.owner (metaOf ev c.nm).tid ∧ call.obj.host ≠ c.self ∧
@@ -171,16 +172,19 @@ theorem forward_preserves (ev : Event) (c : Ctx) (call : Call)
     call.obj.rate = ev.rate ∧ call.obj.ts = ev.ts ∧ call.obj.fields = clientFields ev ∧
     call.obj.md.tid = (metaOf ev c.nm).tid ∧ call.obj.md.root = (metaOf ev c.nm).root ∧
     call.accepted = true ∧
-    (c.stress ≠ .keep → call.obj = (obj0 ev c.nm).toHost (c.owner (metaOf ev c.nm).tid)) := by
+    (c.stress ≠ .keep → call.obj = (obj0 ev c.nm).toHost (c.owner (metaOf ev c.nm).tid)) ∧
+    (c.stress = .keep →
+      call.obj = ((obj0 ev c.nm).stressed.asProbe).toHost (c.owner (metaOf ev c.nm).tid)) := by
   have hc := route_sound ev c
   unfold process at hin
   generalize route ev c = o at hin hc
   cases o with
   | peerForward a =>
     simp only [effects, List.mem_singleton] at hin
-    obtain ⟨_, _, hne, ha⟩ := hc
+    obtain ⟨_, hn, hne, ha⟩ := hc
     subst hin; subst ha
-    exact ⟨rfl, hne, rfl, rfl, rfl, rfl, rfl, rfl, rfl, rfl, rfl, fun _ => rfl⟩
+    refine ⟨rfl, hne, rfl, rfl, rfl, rfl, rfl, rfl, rfl, rfl, rfl, fun _ => rfl, fun hk => ?_⟩
+    rcases hn with hn | hn <;> simp [hn] at hk
   | stressKeep p =>
     cases p with
     | none =>
@@ -192,7 +196,7 @@ theorem forward_preserves (ev : Event) (c : Ctx) (call : Call)
       rcases hin with hin | hin
       · subst hin; simp at hs
       · subst hin; subst ha
-        exact ⟨rfl, hne, rfl, rfl, rfl, rfl, rfl, rfl, rfl, rfl, rfl, fun h => absurd hk h⟩
+        exact ⟨rfl, hne, rfl, rfl, rfl, rfl, rfl, rfl, rfl, rfl, rfl, fun h => absurd hk h, fun _ => rfl⟩
   | queueFull =>
     simp only [effects, List.mem_singleton] at hin
     subst hin
@@ -285,14 +289,42 @@ theorem stress_consulted_for_spans_only (ev : Event) (c : Ctx) :
   by_cases h1 : ev.enc = .bad <;> by_cases h2 : (metaOf ev c.nm).probe = some true <;>
     by_cases h3 : (metaOf ev c.nm).tid = "" <;> by_cases h4 : c.stress = .off <;> simp [h1, h2, h3, h4]
 
-/-- What the model shows for the stress-keep branch on a non-owning node (reported here, judged
-by C16): the event object the collector queued upstream is the one the router then flags as a
-probe and re-addresses to the peer. -/
-theorem stress_probe_shares_the_upstream_object (ev : Event) (c : Ctx) (a : String)
-    (h : route ev c = .stressKeep (some a)) :
-    (process ev c).calls.map (·.sink) = [.upColl, .peer] ∧
-    (process ev c).final.host = a ∧ (process ev c).final.md.probe = some true := by
-  simp [process, h, effects, Obj.toHost, Obj.asProbe]
+/-- **the stress probe leaves the kept span alone** — when a span is kept by stress relief, the
+event object the collector queued upstream is, when `processEvent` returns, exactly what the
+collector queued (the received event marked `meta.stressed`): still addressed to the received
+host, not flagged as a probe, whether or not a probe was sent to the owner; the probe is a
+separate object. -/
+theorem stress_probe_leaves_upstream_object_unchanged (ev : Event) (c : Ctx) (p : Option String)
+    (h : route ev c = .stressKeep p) :
+    (∃ k ∈ (process ev c).calls, k.sink = .upColl ∧ k.obj = (process ev c).final) ∧
+    (process ev c).final = (obj0 ev c.nm).stressed ∧
+    (process ev c).final.host = ev.host ∧
+    (process ev c).final.md.probe = (metaOf ev c.nm).probe ∧
+    (process ev c).final.md.probe ≠ some true := by
+  have hc := (route_conditions ev c _).mp h
+  cases p with
+  | none =>
+    obtain ⟨⟨_, h2, _⟩, _⟩ := hc
+    simp [process, h, effects, Obj.stressed, obj0, h2]
+  | some a =>
+    obtain ⟨⟨_, h2, _⟩, _⟩ := hc
+    simp [process, h, effects, Obj.stressed, obj0, h2]
+
+/-- on every other path the received event object ends as what the (single) sink was handed -/
+theorem final_is_what_the_sink_got (ev : Event) (c : Ctx) (hk : ∀ p, route ev c ≠ .stressKeep p)
+    (k : Call) (hin : k ∈ (process ev c).calls) : k.obj = (process ev c).final := by
+  unfold process at *
+  generalize route ev c = o at *
+  cases o with
+  | stressKeep p => exact absurd rfl (hk p)
+  | parseError => simp [effects] at hin
+  | discardProbe => simp [effects] at hin
+  | stressDrop => simp [effects] at hin
+  | upstreamUnsampled => simp only [effects, List.mem_singleton] at hin; subst hin; rfl
+  | peerForward a => simp only [effects, List.mem_singleton] at hin; subst hin; rfl
+  | collectorIncoming => simp only [effects, List.mem_singleton] at hin; subst hin; rfl
+  | collectorPeer => simp only [effects, List.mem_singleton] at hin; subst hin; rfl
+  | queueFull => simp only [effects, List.mem_singleton] at hin; subst hin; rfl
 
 /-! ## What "probe flag" and "trace id" mean for the received fields -/
 
@@ -420,6 +452,103 @@ theorem no_trace_id_without_carrier (enc : Enc) (nm : Names) (fs : Fields)
       (fun m kv hkv hm => ((step_tid nm m kv (h kv hkv).1 (h kv hkv).2).1).trans hm)
   · exact foldl_inv _ (fun m => m.tid = "") fs meta0 rfl
       (fun m kv hkv hm => ((step_tid nm m kv (h kv hkv).1 (h kv hkv).2).1).trans hm)
+
+/-! ## The dataset name survives a listener hop -/
+
+theorem hex_roundtrip : ∀ n, n < 16 → isHex (hexDigit n) = true ∧ unhex (hexDigit n) = n := by decide
+
+theorem percent_is_escaped {c : Nat} (h : shouldEscape c = false) : c ≠ 37 := by
+  intro hc; subst hc; revert h; decide
+
+theorem pathUnescape_cons_ne {c : Nat} (t : List Nat) (h : c ≠ 37) :
+    pathUnescape (c :: t) = (pathUnescape t).map (fun r => c :: r) := by
+  rw [pathUnescape.eq_def]
+  simp [h]
+
+/-- **dataset_roundtrip** — for every dataset name (any byte string), un-escaping the path
+segment the sender writes gives back exactly that name: a forwarded event arrives under the same
+dataset. -/
+theorem dataset_roundtrip (ds : List Nat) (hb : ∀ b ∈ ds, b < 256) :
+    pathUnescape (pathEscape ds) = some ds := by
+  induction ds with
+  | nil => rfl
+  | cons c t ih =>
+    have iht := ih (fun b hb' => hb b (List.mem_cons_of_mem _ hb'))
+    have hc : c < 256 := hb c (List.mem_cons_self ..)
+    unfold pathEscape
+    by_cases he : shouldEscape c = true
+    · have h1 := hex_roundtrip (c / 16) (by omega)
+      have h2 := hex_roundtrip (c % 16) (Nat.mod_lt _ (by omega))
+      rw [if_pos he]
+      simp only [pathUnescape, if_true, h1.1, h2.1, Bool.and_self, iht, h1.2, h2.2, Option.map_some]
+      congr 2
+      omega
+    · have he' : shouldEscape c = false := by simpa using he
+      rw [if_neg he]
+      rw [pathUnescape_cons_ne _ (percent_is_escaped he'), iht, Option.map_some]
+
+/-- the receiving handler (which refuses an empty name) therefore reads every non-empty dataset
+name back unchanged -/
+theorem dataset_roundtrip_hop (ds : List Nat) (hb : ∀ b ∈ ds, b < 256) (hne : ds ≠ []) :
+    datasetOf (pathEscape ds) = some ds := by
+  unfold datasetOf
+  have : pathEscape ds ≠ [] := by
+    cases ds with
+    | nil => exact absurd rfl hne
+    | cons c t => unfold pathEscape; split <;> simp
+  rw [if_neg this]
+  exact dataset_roundtrip ds hb
+
+/-- Full statement for the hop as a whole (sender URL, request line, mux, handler): every
+non-empty dataset name arrives unchanged. -/
+def HopFullStatement : Prop :=
+  ∀ ds : List Nat, (∀ b ∈ ds, b < 256) → ds ≠ [] → hop ds = some ds
+
+/-- Refuted by the dataset `/a` (e.g. an OTLP `service.name`): the peer is sent
+`POST /1/batch/%2Fa`, its root mux router cleans the *decoded* path `/1/batch//a` and answers with
+a redirect; no handler receives the span. -/
+theorem hop_full_statement_refuted : ¬ HopFullStatement := by
+  intro h
+  have := h [47, 97] (by decide) (by decide)
+  revert this
+  decide
+
+/-- **dataset hop (partial)** — every non-empty dataset name whose path is clean (no leading
+slash, no `//`, no `.`/`..` segment) arrives unchanged. -/
+theorem dataset_hop_partial (ds : List Nat) (hb : ∀ b ∈ ds, b < 256) (hne : ds ≠ [])
+    (hc : unclean ds = false) : hop ds = some ds := by
+  unfold hop
+  rw [hc]
+  exact dataset_roundtrip_hop ds hb hne
+
+/-- **unescape_plus_literal** — `+` in a path segment is a literal plus sign: un-escaping copies
+it (it is never turned into a space), wherever it stands. -/
+theorem unescape_plus_literal (s : List Nat) :
+    pathUnescape (43 :: s) = (pathUnescape s).map (fun r => 43 :: r) :=
+  pathUnescape_cons_ne s (by decide)
+
+/-- a segment without `%` is its own dataset name -/
+theorem unescape_no_percent (s : List Nat) (h : ∀ b ∈ s, b ≠ 37) : pathUnescape s = some s := by
+  induction s with
+  | nil => rfl
+  | cons c t ih =>
+    have hc : c ≠ 37 := h c (List.mem_cons_self ..)
+    rw [pathUnescape_cons_ne _ hc, ih (fun b hb => h b (List.mem_cons_of_mem _ hb)), Option.map_some]
+
+/-- the sender leaves `+` as it is (so the receiver must not read it as a space) -/
+theorem escape_keeps_plus (s : List Nat) : pathEscape (43 :: s) = 43 :: pathEscape s := by
+  simp [pathEscape, shouldEscape, isAlnum]
+
+-- "team+env", "a b", "%2B", "é": escaped, then read back
+example : pathEscape [116, 43, 101] = [116, 43, 101] := by decide
+example : pathEscape [97, 32, 98] = [97, 37, 50, 48, 98] := by decide
+example : pathUnescape (pathEscape [37, 50, 66]) = some [37, 50, 66] := by decide
+example : pathEscape [195, 169, 47] = [37, 67, 51, 37, 65, 57, 37, 50, 70] := by decide
+example : pathUnescape [97, 37, 50] = none := by decide
+example : pathUnescape [37, 101, 57] = some [233] := by decide
+example : unclean [97, 47] = false ∧ unclean [47] = true ∧ unclean [97, 47, 47, 98] = true ∧
+    unclean [46, 46] = true ∧ unclean [97, 47, 46] = true ∧ unclean [46, 46, 46] = false := by decide
+example : hop [116, 43, 101, 47, 98] = some [116, 43, 101, 47, 98] := by decide
 
 /-! ## Non-vacuity: concrete events, evaluated by the kernel -/
 
